@@ -12,6 +12,7 @@ import (
 	"encoding/binary"
 	"fmt"
 	"io"
+	"os"
 )
 
 // NFSProcedureHandler handles NFS procedure calls
@@ -303,6 +304,24 @@ func (h *NFSProcedureHandler) lookupNode(handle uint64) (*NFSNode, bool) {
 	}
 	node, ok := file.(*NFSNode)
 	return node, ok
+}
+
+// currentMode returns the type and permission bits of the object a handle
+// names now. The attributes kept in the node date from when the handle was
+// issued, and the path may since have been given to an object of another type
+// (a RENAME onto the name through another handle), so deciding "is this a
+// directory / a symbolic link" from them answers for an object that is gone.
+// The stored mode is used only when the current attributes cannot be obtained.
+func (h *NFSProcedureHandler) currentMode(node *NFSNode) os.FileMode {
+	if attrs, err := h.server.handler.GetAttr(node); err == nil && attrs != nil {
+		return attrs.Mode
+	}
+	node.mu.RLock()
+	defer node.mu.RUnlock()
+	if node.attrs == nil {
+		return 0
+	}
+	return node.attrs.Mode
 }
 
 // decodeAndLookupHandle decodes a file handle from the body and looks up the node
